@@ -17,6 +17,12 @@ def main():
         ok, out = core.lake_build([])
         print(out[-3000:])
         sys.exit(0 if ok else 1)
+    if a.prop == "C19":
+        from vcheck import c19
+        if a.replay:
+            print(open(a.replay).read()[:6000])
+            print("replay of a race report: re-running the workloads")
+        sys.exit(c19.run(a.tier, a.seed))
     if a.prop in props.SEQ:
         cfg = props.SEQ[a.prop]
         if a.replay:
